@@ -134,7 +134,7 @@ func maxCorrOf(m ssa.Value) (string, bool) {
 }
 
 func checkC01(p *ana.Prog, r *ana.Result) {
-	r.Explain("C01 (structural necessary conditions) in sync.Run: start-up refusal - every path to the first actuation passes the canonical (linear normal form) conditions ReferenceClockImpact > 1, PeerClockImpact > 1, PeerClockImpact - ReferenceClockImpact - 1 > 0, SyncInterval > 0, SyncInterval - 2*SyncTimeout >= 0, each failing into panic; once per round - the loop body contains exactly one Adjustment.Do and one SystemClock.Sleep(cfg.SyncInterval) and every cycle passes both; bounded actuation - the value handed to Do is, on every arm, the constant 0, the reference offset clamped to +-ReferenceClockImpact*float64(clk.Drift(SyncInterval)), the peer offset clamped to +-PeerClockImpact*float64(clk.Drift(SyncInterval)) on an arm that is only entered when the peer flag is set, that flag being set only under |peer| > cfg.PeerClockCutoff, or timemath.Midpoint of those two; nothing is carried over from a previous round; the reference value comes from the reference-clock round and the peer value from the peer round (disjoint clients, slices, channels).")
+	r.Explain("C01 (structural necessary conditions) in sync.Run: start-up refusal - every path to the first actuation passes the canonical (linear normal form) conditions ReferenceClockImpact > 1, PeerClockImpact > 1, PeerClockImpact - ReferenceClockImpact - 1 > 0, SyncInterval > 0, SyncInterval - 2*SyncTimeout >= 0, each failing into panic; once per round - the loop body contains exactly one Adjustment.Do and one SystemClock.Sleep(cfg.SyncInterval) and every cycle passes both; bounded actuation (decided by enumeration: the value handed to Do is followed back through every merge under each assignment of the branch conditions that select it; a recogniser of the clamp/flag shapes is the fallback for values carried around the loop) - the value handed to Do is, under every assignment, the constant 0, the reference offset clamped to +-ReferenceClockImpact*float64(clk.Drift(SyncInterval)), the peer offset clamped to +-PeerClockImpact*float64(clk.Drift(SyncInterval)) on an arm that is only entered when the peer flag is set, that flag being set only under |peer| > cfg.PeerClockCutoff, or timemath.Midpoint of those two; nothing is carried over from a previous round; the reference value comes from the reference-clock round and the peer value from the peer round (disjoint clients, slices, channels).")
 	r.Undecided("float rounding inside the clamp, the numeric value of the fault-tolerant midpoint (C02), Drift's arithmetic, int64 extremes (Duration.Abs of MinInt64 saturates by library contract)")
 	fn := mustFunc(p, r, "core/sync", "Run")
 	if fn == nil {
